@@ -166,7 +166,32 @@ class Oracle(object):
         span = max(rect[2] - rect[0], rect[3] - rect[1])
         return self.geom.distance(self._sg.box(*rect)) > 1e-6 * span
 
+    def window(self, z, region):
+        """main tiles of level z whose meta tile can come near `region` (one meta tile of margin); every other
+        tile of the level is farther than a whole meta tile away from it"""
+        wd = self.wd
+        g = wd.grid
+        gs = g.grid_sizes[z]
+        mx, my = level_meta_size(wd, z)
+        sx = g.resolutions[z] * g.tile_size[0] * mx
+        sy = g.resolutions[z] * g.tile_size[1] * my
+        nmx = (gs[0] + mx - 1) // mx
+        nmy = (gs[1] + my - 1) // my
+        i0 = int(math.floor((region[0] - g.bbox[0]) / sx)) - 1
+        i1 = int(math.floor((region[2] - g.bbox[0]) / sx)) + 1
+        if g.origin == 'ul':
+            j0 = int(math.floor((g.bbox[3] - region[3]) / sy)) - 1
+            j1 = int(math.floor((g.bbox[3] - region[1]) / sy)) + 1
+        else:
+            j0 = int(math.floor((region[1] - g.bbox[1]) / sy)) - 1
+            j1 = int(math.floor((region[3] - g.bbox[1]) / sy)) + 1
+        return [(i * mx, j * my, z) for j in range(max(j0, 0), min(j1, nmy - 1) + 1)
+                for i in range(max(i0, 0), min(i1, nmx - 1) + 1)]
+
     def sets(self):
+        """-> must, mustcoarse, allowed (lists of main tiles).  A tile that is not `allowed` must not be requested:
+        its meta tile does not even touch the coverage (with skip_geoms_for_last_levels: no meta tile of the deepest
+        geometry-tested level that overlaps it touches the coverage)."""
         wd = self.wd
         g = wd.grid
         levels = wd.levels
@@ -177,36 +202,36 @@ class Oracle(object):
         tested = [z for z in range(0, levels[-1] + 1) if len([l for l in levels if l >= z]) >= wd.skip]
         deepest = max(tested) if tested else None
         root = tuple(wd.coverage.extent.bbox_for(g.srs))
-        must, coarse, mustnot = [], [], []
-        anc_cache = {}
+        anc = None
+        if deepest is not None and deepest < levels[-1]:
+            anc = [meta_rect(wd, a) for a in self.window(deepest, root)]
+            anc = [r for r in anc if not self.away(r)]
+        must, coarse, allowed = [], [], []
         for z in levels:
             d = g.resolutions[z] / 10.0
-            for t in meta_tiles_of_level(wd, z):
+            if deepest is not None and z > deepest:
+                if not anc:
+                    continue
+                region = (min(r[0] for r in anc), min(r[1] for r in anc), max(r[2] for r in anc), max(r[3] for r in anc))
+            else:
+                region = root
+            for t in self.window(z, region):
                 r = meta_rect(wd, t)
                 if self.overlaps(r, f * d):
                     must.append(t)
+                    allowed.append(t)
                     if self.overlaps(r, f * d0):
                         coarse.append(t)
                     continue
-                if deepest is not None and z <= deepest:
-                    if self.away(r):
-                        mustnot.append(t)
-                elif deepest is None:
-                    if not _overlap_closed(r, root):
-                        mustnot.append(t)
+                if deepest is None:
+                    ok = _overlap_closed(r, root)
+                elif z <= deepest:
+                    ok = not self.away(r)
                 else:
-                    # geometry is not tested at this level: the tile may be requested if some tested
-                    # ancestor candidate (a meta tile of level `deepest` that overlaps it) is not away
-                    if deepest not in anc_cache:
-                        anc_cache[deepest] = [(a, meta_rect(wd, a)) for a in meta_tiles_of_level(wd, deepest)]
-                    ok = False
-                    for a, ar in anc_cache[deepest]:
-                        if _overlap_closed(ar, r) and not self.away(ar):
-                            ok = True
-                            break
-                    if not ok:
-                        mustnot.append(t)
-        return must, coarse, mustnot
+                    ok = any(_overlap_closed(ar, r) for ar in anc)
+                if ok:
+                    allowed.append(t)
+        return must, coarse, allowed
 
 
 # --- the pyramid relation measured on the real grid and coverage ----------------------------------
@@ -296,7 +321,7 @@ def build_world(wd, max_nodes=6000, plans=None):
     for b in boxes:
         rk.add(b)
     rk.freeze()
-    must, coarse, mustnot = Oracle(wd).sets()
+    must, coarse, allowed = Oracle(wd).sets()
     w = {
         'name': wd.name,
         'levels': list(wd.levels),
@@ -307,7 +332,7 @@ def build_world(wd, max_nodes=6000, plans=None):
         'tile': {tkey(t): {'box': rk.box(mb), 'con': con, 'int': inter} for t, (mb, con, inter) in tiles.items()},
         'must': [list(t) for t in must],
         'mustcoarse': [list(t) for t in coarse],
-        'mustnot': [list(t) for t in mustnot],
+        'allowed': [list(t) for t in allowed],
         'plans': [list(p) for p in (plans or [[]])],
     }
     return w, rk
@@ -863,20 +888,57 @@ def _seed_interrupted():
     return SeedInterrupted
 
 
-def classify_miss(w, t):
-    """a must-tile that was not requested: thin overlap (only a coarser level's 1/10 pixel explains it) or not"""
-    coarse = set(tuple(x) for x in w['mustcoarse'])
-    return 'overlap-below-tenth-pixel-of-coarser-level' if tuple(t) not in coarse else 'other'
+def ideal_reach(wd):
+    """Meta tiles of the seeded levels reached by an idealised descent that keeps every overlap of positive
+    area (no per-level 1/10 pixel inset), computed with the oracle's geometry only.  Used to tell WHY a tile was
+    missed: a must-tile that this descent reaches but the code does not was lost to the inset of a coarser level."""
+    orc = Oracle(wd)
+    g = wd.grid
+    last = wd.levels[-1]
+    root = tuple(wd.coverage.extent.bbox_for(g.srs))
+    reached = set()
+    seen = set()
+    todo = [(0, root)]
+    while todo:
+        z, box = todo.pop()
+        if (z, box) in seen or len(seen) > 20000:
+            continue
+        seen.add((z, box))
+        if box[0] >= box[2] or box[1] >= box[3]:
+            continue
+        tested = len([l for l in wd.levels if l >= z]) >= wd.skip
+        for t in orc.window(z, box):
+            rect = meta_rect(wd, t)
+            if not _overlap_open(rect, box):
+                continue
+            if tested and orc.away(rect):
+                continue
+            if z in wd.levels:
+                reached.add(t)
+            if z < last:
+                todo.append((z + 1, limit(box, rect)))
+    return reached
+
+
+_REACH = {}
+
+
+def classify_miss(wd, t):
+    """a must-tile that was not requested: lost to the 1/10 pixel inset of a coarser level, or something else"""
+    if wd.name not in _REACH:
+        _REACH.clear()
+        _REACH[wd.name] = ideal_reach(wd)
+    return 'coarse-level-inset' if tuple(t) in _REACH[wd.name] and t[2] > 0 else 'other'
 
 
 def check_observed(ctx, wd, w, full, sess, what):
     """the property statement on the values observed on the real code; returns set of excusable miss causes"""
     must = set(tuple(t) for t in w['must'])
-    mustnot = set(tuple(t) for t in w['mustnot'])
+    allowed = set(tuple(t) for t in w['allowed'])
     fullset = set(full)
     res = set()
     for t in sorted(must - fullset):
-        cause = classify_miss(w, t)
+        cause = classify_miss(wd, t)
         res.add(cause)
         ctx.violation({'clause': 'CompleteRunExact', 'cause': cause},
                       '%s: an uninterrupted seed run never requests meta tile %s although it overlaps the coverage by more '
@@ -884,7 +946,7 @@ def check_observed(ctx, wd, w, full, sess, what):
                       {'kind': 'miss', 'world': wd.desc, 'tile': list(t)})
     for run in (sess.handed_runs if sess is not None else [full]):
         for t in run:
-            if t in mustnot:
+            if t not in allowed:
                 ctx.violation({'clause': 'NoOutside', 'lattice': wd.lattice},
                               '%s: meta tile %s is requested although it lies outside the coverage (%s)' % (
                                   wd.name, t, json.dumps(wd.desc)), {'kind': 'outside', 'world': wd.desc, 'tile': list(t)})
@@ -990,7 +1052,7 @@ def random_world(rng, idx, near_border=False):
         y = rng.uniform(gb[1], gb[3] - h)
         if near_border:
             # one edge closer than 1/10 pixel of a coarser level to a tile border of that level
-            k = rng.randint(0, max(0, last - 1))
+            k = rng.randint(0, max(0, last - 3))
             span = g.resolutions[k] * g.tile_size[0]
             d = g.resolutions[k] / 10.0 * rng.uniform(0.15, 0.85)
             n = int((x - gb[0]) / span)
